@@ -16,23 +16,39 @@ def ExactMem (q : Pat) : Prop :=
 theorem exactMem_simple (q : Pat) (hw : wf1 q = true) (h : ExactMem q) : Exact1 q := by
   cases q <;> simp_all [ExactMem, wf1]
 
-theorem exact_nested (qs : List Pat) (hall : ∀ q ∈ qs, ExactMem q) : Exact1 (.nested qs) := by
-  intro hw
-  have hwl : wfList qs = true := by simpa [wf1] using hw
+/-- The list-form statement for every well-formed pattern list, from the statement for its members. -/
+theorem exactL_of_wf (qs : List Pat) (hall : ∀ q ∈ qs, ExactMem q) (hwl : wfList qs = true) : ExactL qs := by
   cases wfList_shape qs hwl with
   | simples hs =>
-      exact nested_simples qs (fun q hq => exactMem_simple q (wfSimples_mem qs hs q hq) (hall q hq)) hs hw
+      exact nested_simples qs (fun q hq => exactMem_simple q (wfSimples_mem qs hs q hq) (hall q hq)) hs
   | rest pre r hq hpre hr =>
       subst hq
       exact nested_rest pre r
-        (fun q hq' => exactMem_simple q (wfSimples_mem pre hpre q hq') (hall q (by simp [hq']))) hpre hr hw
+        (fun q hq' => exactMem_simple q (wfSimples_mem pre hpre q hq') (hall q (by simp [hq']))) hpre hr
   | many pre sub post hq hpre hsub hpost =>
       subst hq
       exact nested_many pre sub post
         (fun q hq' => exactMem_simple q (wfSimples_mem pre hpre q hq') (hall q (by simp [hq'])))
         (hall (.many sub) (by simp))
         (fun q hq' => exactMem_simple q (wfSimples_mem post hpost q hq') (hall q (by simp [hq'])))
-        hpre hsub hpost hw
+        hpre hsub hpost
+  | manyRest pre sub post r hq hpre hsub hpost hr =>
+      subst hq
+      exact nested_many_rest pre sub post r
+        (fun q hq' => exactMem_simple q (wfSimples_mem pre hpre q hq') (hall q (by simp [hq'])))
+        (hall (.many sub) (by simp))
+        (fun q hq' => exactMem_simple q (wfSimples_mem post hpost q hq') (hall q (by simp [hq'])))
+        hpre hsub hpost hr
+
+theorem exact_nested (qs : List Pat) (hall : ∀ q ∈ qs, ExactMem q) : Exact1 (.nested qs) := by
+  intro hw hnd f sc env0 e' hnf hm hc
+  simp only [wf1, Bool.and_eq_true, Bool.not_eq_true'] at hw
+  cases f with
+  | list xs imp => exact exactL_of_wf qs hall hw.1 hnd xs imp sc env0 e' hnf hm hc
+  | id a b => rw [match_nested_nonlist sc qs _ hw.2 (by intro xs imp h; cases h)] at hm; cases hm
+  | kw a => rw [match_nested_nonlist sc qs _ hw.2 (by intro xs imp h; cases h)] at hm; cases hm
+  | int a => rw [match_nested_nonlist sc qs _ hw.2 (by intro xs imp h; cases h)] at hm; cases hm
+  | bool a => rw [match_nested_nonlist sc qs _ hw.2 (by intro xs imp h; cases h)] at hm; cases hm
 
 mutual
 theorem exact1_all : ∀ (p : Pat), Exact1 p
